@@ -6,8 +6,24 @@
  * both endpoints must report identical parameters and exchange data.  A man in the middle then
  * rewrites single fields of ClientHello / ServerHello (parsed and re-encoded with correct
  * lengths): neither side may complete.  fallback_scsv below the server's maximum and a TLS 1.3
- * downgrade sentinel must kill the handshake at the hello. */
+ * downgrade sentinel must kill the handshake at the hello.
+ *
+ * HelloRetryRequest handshakes (client key share for a group the server does not enable) get the
+ * same rewrite grid on each of their four hellos: ClientHello1, HelloRetryRequest, ClientHello2,
+ * ServerHello.  The MatrixSSL server always puts a cookie (= Hash(ClientHello1)) into its
+ * HelloRetryRequest, so every such handshake is a "with cookie" one; the cookie-less variants are
+ * the ext-remove rewrites of the HelloRetryRequest and of ClientHello2.
+ *
+ * Signature algorithms: for server identities RSA-2048 / P-256 / P-384 / P-521 (and client
+ * identities in the client-auth variant) against restricted signature_algorithms lists, a wire
+ * observer reads the SignatureAndHashAlgorithm / SignatureScheme actually used from
+ * ServerKeyExchange and CertificateVerify (TLS 1.3: handshake records opened with the sender's
+ * handshake traffic key) and the list actually offered from ClientHello / CertificateRequest:
+ * completion => algorithm offered by the verifier and usable with the signer's key.  A rogue signer
+ * (the library's own chooser overridden through --wrap) signs with an algorithm the verifier did
+ * not offer: the verifier must not complete. */
 #include "mx.h"
+#include "mx_surgeon.h"
 
 static const char *cur_class = "?"; static char cur_desc[256]; static int cur_v = -1;
 static void report(const char *clause, const char *fmt, ...)
@@ -25,6 +41,7 @@ typedef struct {
     int isServer, dtls; unsigned char legacy[2], random[32]; int sidlen; unsigned char sid[32];
     int nsuites; uint16_t suites[200]; int ncomp; unsigned char comp[8]; int cookielen; unsigned char cookie[255];
     int next; ext_t ext[40]; int hasExt; int msgSeq;
+    const unsigned char *trail; int traillen;   /* further handshake messages packed into the same record: carried over unchanged */
 } hello_t;
 static int parse_hello(const unsigned char *rec, int n, int dtls, hello_t *h)
 {
@@ -42,6 +59,7 @@ static int parse_hello(const unsigned char *rec, int n, int dtls, hello_t *h)
     } else { h->nsuites = 1; h->suites[0] = (p[0] << 8) | p[1]; p += 2; h->ncomp = 1; h->comp[0] = *p++; }
     if (p + 2 <= e) { h->hasExt = 1; int el = (p[0] << 8) | p[1]; p += 2; const unsigned char *ee = p + el; if (ee > e) return -1;
         while (p + 4 <= ee && h->next < 40) { ext_t *x = &h->ext[h->next++]; x->type = (p[0] << 8) | p[1]; x->len = (p[2] << 8) | p[3]; x->data = p + 4; p += 4 + x->len; if (p > ee) return -1; } }
+    h->trail = e; h->traillen = (int) (rec + n - e);
     return 0;
 }
 static int build_hello(const hello_t *h, unsigned char *out, const unsigned char *origrec)
@@ -59,7 +77,8 @@ static int build_hello(const hello_t *h, unsigned char *out, const unsigned char
     memcpy(out, origrec, rh + hh);
     out[rh + 1] = bl >> 16; out[rh + 2] = bl >> 8; out[rh + 3] = bl;
     if (h->dtls) { out[rh + 9] = bl >> 16; out[rh + 10] = bl >> 8; out[rh + 11] = bl; }
-    int rl = hh + bl; out[rh - 2] = rl >> 8; out[rh - 1] = rl;
+    memcpy(p, h->trail, h->traillen);
+    int rl = hh + bl + h->traillen; out[rh - 2] = rl >> 8; out[rh - 1] = rl;
     return rh + rl;
 }
 
@@ -69,13 +88,122 @@ typedef struct {
     int nsu; uint16_t su[8];          /* client suite list (0 = library default) */
     uint16_t sdis[4]; int nsdis;      /* suites the server disables for its session */
     int ngroupsC, ngroupsS; uint16_t groupsC[4], groupsS[4]; int shares;
-    int nsigC, nsigS; uint16_t sigC[4], sigS[4];
+    int nsigC, nsigS; uint16_t sigC[10], sigS[10];
     int emsC, emsS, scsv, ecdsa;
     int ascC, ascS;                   /* version lists handed to the API lowest-first instead of highest-first */
+    int idS, idC;                     /* identity table indices (0 = the default sample identity chosen by `ecdsa` / no client identity); idC != 0 = client authentication */
+    int sig;                          /* 1 = judged by the signature-algorithm oracle (server auth), 2 = client-auth variant */
+    uint16_t force; int forceRole;    /* rogue signer: endpoint forceRole signs with `force` whatever the verifier offered */
+    int hrr;                          /* the configuration must go through HelloRetryRequest */
 } cfg_t;
-typedef struct { int kind, field, arg, arg2; } tamper_t;   /* kind 0 = none, 1 = ClientHello edit, 2 = ServerHello edit */
+typedef struct { int kind, field, arg, arg2, which; } tamper_t;   /* kind 0 = none, 1 = ClientHello edit, 2 = ServerHello edit; which 0 = first hello of that direction the edit applies to,
+                                                                      n = exactly the n-th hello of that direction (HelloRetryRequest handshakes: ClientHello1/2, HelloRetryRequest = 1st, ServerHello = 2nd) */
 enum { F_LEGACY = 0, F_RANDOM_TAIL, F_SID, F_SUITE_DROP, F_SUITE_INSERT, F_SUITE_SWAP, F_SUITE_SET, F_COMP, F_EXT_REMOVE, F_EXT_DUP, F_EXT_EDIT, F_EXT_APPEND, F_SV_DROP13, F_N };
 static const char *fname[] = { "legacy-version", "random-tail", "session-id", "suite-drop", "suite-insert", "suite-swap", "suite-set", "compression", "ext-remove", "ext-duplicate", "ext-edit-byte", "ext-append-unknown", "supported-versions-drop-1.3" };
+
+/* ---------------------------------------------------------------- identities ---- */
+enum { KT_RSA = 0, KT_P256, KT_P384, KT_P521 };
+typedef struct { const char *name, *cert, *key; int kt; uint16_t chainAlg; sslKeys_t *keys; } ident_t;
+static ident_t ident[] = {
+    { "default", NULL, NULL, 0, 0, NULL },
+    { "rsa2048", MX_TK "RSA/2048_RSA.pem", MX_TK "RSA/2048_RSA_KEY.pem", KT_RSA, 0x0401, NULL },
+    { "p256", MX_TK "EC/256_EC.pem", MX_TK "EC/256_EC_KEY.pem", KT_P256, 0x0403, NULL },
+    { "p384", MX_TK "EC/384_EC.pem", MX_TK "EC/384_EC_KEY.pem", KT_P384, 0x0403, NULL },          /* chain signed ecdsa-with-SHA256 */
+    { "p521", MX_TK "EC/521_EC.pem", MX_TK "EC/521_EC_KEY.pem", KT_P521, 0x0403, NULL },          /* chain signed ecdsa-with-SHA256 */
+    { "p384-sha384chain", MX_TK "EC/384_EC_SHA384.pem", MX_TK "EC/384_EC_KEY.pem", KT_P384, 0x0503, NULL },
+    { "p521-sha512chain", MX_TK "EC/521_EC_SHA512.pem", MX_TK "EC/521_EC_KEY.pem", KT_P521, 0x0603, NULL },
+};
+#define NIDENT ((int) (sizeof ident / sizeof ident[0]))
+static sslKeys_t *cli_all;   /* client without identity, every sample CA */
+static const char *ca_all = MX_TK "RSA/2048_RSA_CA.pem;" MX_TK "EC/256_EC_CA.pem;" MX_TK "EC/384_EC_CA.pem;" MX_TK "EC/384_EC_CA_SHA384.pem;" MX_TK "EC/521_EC_CA.pem;" MX_TK "EC/521_EC_CA_SHA512.pem";
+static void ident_load(void) { for (int i = 1; i < NIDENT; i++) ident[i].keys = mx_mkkeys(ident[i].cert, ident[i].key, ca_all); cli_all = mx_mkkeys(NULL, NULL, ca_all); }
+static void ident_free(void) { for (int i = 1; i < NIDENT; i++) if (ident[i].keys) { matrixSslDeleteKeys(ident[i].keys); ident[i].keys = NULL; } if (cli_all) { matrixSslDeleteKeys(cli_all); cli_all = NULL; } }
+/* may a signature made with key type kt carry algorithm a?  TLS 1.2: the signature half must be the key's (any hash; rsa_pss_rsae is an RSA-key algorithm);
+   TLS 1.3: RSA keys sign rsa_pss_rsae_* only, EC keys only the scheme of their curve */
+static int sig_usable(int v13, int kt, uint16_t a)
+{
+    if (v13) return kt == KT_RSA ? (a >= 0x0804 && a <= 0x0806) : kt == KT_P256 ? a == 0x0403 : kt == KT_P384 ? a == 0x0503 : a == 0x0603;
+    if (kt == KT_RSA) return ((a & 0xff) == 0x01 && (a >> 8) >= 2 && (a >> 8) <= 6) || (a >= 0x0804 && a <= 0x0806);
+    return (a & 0xff) == 0x03 && (a >> 8) >= 2 && (a >> 8) <= 6;
+}
+static int in_list(const uint16_t *l, int n, uint16_t a) { for (int i = 0; i < n; i++) if (l[i] == a) return 1; return 0; }
+
+/* ---------------------------------------------------------------- rogue signer (--wrap) ---- */
+static uint16_t force_alg; static int force_role = -1;
+int32_t __real_chooseSkeSigAlg(ssl_t *ssl, sslIdentity_t *id);
+int32_t __wrap_chooseSkeSigAlg(ssl_t *ssl, sslIdentity_t *id)
+{
+    if (force_alg && force_role == MX_SERVER && (ssl->flags & SSL_FLAGS_SERVER)) { vf_stat("rogue_signatures_made", 1); return tlsSigAlgToMatrix(force_alg); }
+    return __real_chooseSkeSigAlg(ssl, id);
+}
+int32_t __real_chooseSigAlg(psX509Cert_t *cert, psPubKey_t *privKey, uint16_t peerSigAlgs);
+int32_t __wrap_chooseSigAlg(psX509Cert_t *cert, psPubKey_t *privKey, uint16_t peerSigAlgs)   /* reached through the wrapper only from the client's TLS 1.2 CertificateVerify */
+{
+    if (force_alg && force_role == MX_CLIENT) { vf_stat("rogue_signatures_made", 1); return tlsSigAlgToMatrix(force_alg); }
+    return __real_chooseSigAlg(cert, privKey, peerSigAlgs);
+}
+uint16_t __real_tls13ChooseSigAlg(ssl_t *ssl, const uint16_t *peerSigAlgs, psSize_t peerSigAlgsLen);
+uint16_t __wrap_tls13ChooseSigAlg(ssl_t *ssl, const uint16_t *peerSigAlgs, psSize_t peerSigAlgsLen)
+{
+    uint16_t a = __real_tls13ChooseSigAlg(ssl, peerSigAlgs, peerSigAlgsLen);
+    if (force_alg && force_role == ((ssl->flags & SSL_FLAGS_SERVER) ? MX_SERVER : MX_CLIENT) && ssl->keys && ssl->keys->identity) { vf_stat("rogue_signatures_made", 1); ssl->chosenIdentity = ssl->keys->identity; return force_alg; }
+    return a;
+}
+
+/* ---------------------------------------------------------------- wire observer ---- */
+typedef struct {
+    int v13, nCH, nHRR, nSH, ske, cvC, cvS, sawCreq, nOff, nCreq, ccs[2]; uint16_t off[64], creq[64]; unsigned long long hsseq[2];
+    unsigned char hs[2][70000]; int hslen[2], hspos[2];
+} wire_t;
+static const unsigned char hrr_random[32] = { 0xCF, 0x21, 0xAD, 0x74, 0xE5, 0x9A, 0x61, 0x11, 0xBE, 0x1D, 0x8C, 0x02, 0x1E, 0x65, 0xB8, 0x91, 0xC2, 0xA2, 0x11, 0x16, 0x7A, 0xBB, 0x8C, 0x5E, 0x07, 0x9E, 0x09, 0xE2, 0xC8, 0xA8, 0x33, 0x9C };
+static const unsigned char *find_ext(const unsigned char *p, const unsigned char *e, int want, int *len)   /* p = the 2-byte length of an extension block */
+{
+    if (p + 2 > e) return NULL; int el = (p[0] << 8) | p[1]; p += 2; if (p + el > e) return NULL; e = p + el;
+    while (p + 4 <= e) { int t = (p[0] << 8) | p[1], l = (p[2] << 8) | p[3]; p += 4; if (p + l > e) return NULL; if (t == want) { *len = l; return p; } p += l; }
+    return NULL;
+}
+static int read_alg_list(const unsigned char *x, int xl, uint16_t *out, int cap) { if (xl < 2) return 0; int ll = (x[0] << 8) | x[1], n = 0; for (int i = 0; i + 1 < ll && 3 + i < xl && n < cap; i += 2) out[n++] = (x[2 + i] << 8) | x[3 + i]; return n; }
+static void wire_msg(wire_t *w, int dir, int dtls, int type, const unsigned char *b, int l)
+{
+    const unsigned char *e = b + l, *x; int xl;
+    if (dir == 0 && type == 1) {
+        w->nCH++; const unsigned char *p = b + 34; if (p >= e) return; p += 1 + p[0]; if (dtls) { if (p >= e) return; p += 1 + p[0]; }
+        if (p + 2 > e) return; p += 2 + ((p[0] << 8) | p[1]); if (p >= e) return; p += 1 + p[0];
+        if ((x = find_ext(p, e, 13, &xl))) w->nOff = read_alg_list(x, xl, w->off, 64);
+    } else if (dir == 0 && type == 15) { if (l >= 2) w->cvC = (b[0] << 8) | b[1]; }
+    else if (dir == 1 && type == 2) {
+        if (l < 38) return; if (!memcmp(b + 2, hrr_random, 32)) w->nHRR++; else w->nSH++;
+        const unsigned char *p = b + 34; p += 1 + p[0] + 3; if ((x = find_ext(p, e, 43, &xl)) && xl >= 2 && x[0] == 3 && x[1] == 4) w->v13 = 1;
+    } else if (dir == 1 && type == 12) { if (!w->v13 && l >= 4 && b[0] == 3) { int pl = b[3]; if (4 + pl + 2 <= l) w->ske = (b[4 + pl] << 8) | b[5 + pl]; } }
+    else if (dir == 1 && type == 13) {
+        w->sawCreq = 1; if (l < 1) return; const unsigned char *p = b + 1 + b[0];
+        if (w->v13) { if ((x = find_ext(p, e, 13, &xl))) w->nCreq = read_alg_list(x, xl, w->creq, 64); }
+        else if (p + 2 <= e) w->nCreq = read_alg_list(p, (int) (e - p), w->creq, 64);
+    } else if (dir == 1 && type == 15) { if (l >= 2) w->cvS = (b[0] << 8) | b[1]; }
+}
+static void wire_drain(wire_t *w, int dir)
+{
+    while (w->hspos[dir] + 4 <= w->hslen[dir]) { const unsigned char *p = w->hs[dir] + w->hspos[dir]; int l = (p[1] << 16) | (p[2] << 8) | p[3]; if (w->hspos[dir] + 4 + l > w->hslen[dir]) break; wire_msg(w, dir, 0, p[0], p + 4, l); w->hspos[dir] += 4 + l; }
+}
+static void wire_append(wire_t *w, int dir, const unsigned char *p, int n) { if (n > 0 && w->hslen[dir] + n <= (int) sizeof w->hs[dir]) { memcpy(w->hs[dir] + w->hslen[dir], p, n); w->hslen[dir] += n; } wire_drain(w, dir); }
+/* everything endpoint snd is about to send in direction dir (0 = client -> server) */
+static void wire_flight(wire_t *w, mx_ep *snd, int dir, const unsigned char *b, int n, int dtls)
+{
+    static unsigned char plain[70000]; int off = 0; mx_rec r;
+    while (mx_rec_at(b, n, off, dtls, &r)) {
+        const unsigned char *p = b + off + r.hdr; int tot = r.hdr + r.len;
+        if (dtls) {
+            if (r.type == 22 && r.epoch == 0) { int o = 0; while (o + 12 <= r.len) { int ml = (p[o + 1] << 16) | (p[o + 2] << 8) | p[o + 3], fo = (p[o + 6] << 16) | (p[o + 7] << 8) | p[o + 8], fl = (p[o + 9] << 16) | (p[o + 10] << 8) | p[o + 11];
+                if (o + 12 + fl > r.len) break; if (fo == 0 && fl == ml) wire_msg(w, dir, 1, p[o], p + o + 12, ml); o += 12 + fl; } }
+        } else if (r.type == 20) w->ccs[dir] = 1;
+        else if (r.type == 22 && (!w->ccs[dir] || w->v13)) wire_append(w, dir, p, r.len);
+        else if (r.type == 23 && w->v13 && snd->ssl->cipher && tot < (int) sizeof plain) {
+            int l = mx13_open(snd->ssl->cipher->ident, snd->ssl->sec.tls13HsWriteKey, snd->ssl->sec.tls13HsWriteIv, w->hsseq[dir], b + off, tot, plain);
+            if (l > 0) { w->hsseq[dir]++; while (l > 0 && plain[l - 1] == 0) l--; if (l > 0 && plain[l - 1] == 22) wire_append(w, dir, plain, l - 1); }
+        }
+        off += tot;
+    }
+}
 
 static void open_pair(mx_conn *k, const cfg_t *c, sslSessionId_t *sid, int *rcs, int *rcc)
 {
@@ -103,21 +231,22 @@ static void open_pair(mx_conn *k, const cfg_t *c, sslSessionId_t *sid, int *rcs,
     memset(&k->s, 0, sizeof k->s); memset(&k->c, 0, sizeof k->c);
     k->s.role = MX_SERVER; k->s.id = 1; k->s.name = "S"; k->c.role = MX_CLIENT; k->c.id = 0; k->c.name = "C";
     k->s.ver = k->c.ver = dtls ? MX_DTLS12 : MX_TLS12;
-    mx_actor = 1; MX_ENTER(); *rcs = matrixSslNewServerSession(&k->s.ssl, c->ecdsa ? mx_keys.srv_ec : mx_keys.srv_rsa, NULL, &so); MX_LEAVE();
+    sslKeys_t *sk = c->idS ? ident[c->idS].keys : c->ecdsa ? mx_keys.srv_ec : mx_keys.srv_rsa, *ck = c->idC ? ident[c->idC].keys : c->idS ? cli_all : mx_keys.cli;
+    mx_actor = 1; MX_ENTER(); *rcs = matrixSslNewServerSession(&k->s.ssl, sk, c->idC ? mx_cert_cb_accept : NULL, &so); MX_LEAVE();
     if (*rcs >= 0) for (int i = 0; i < c->nsdis; i++) { MX_ENTER(); matrixSslSetCipherSuiteEnabledStatus(k->s.ssl, c->sdis[i], PS_FALSE); MX_LEAVE(); }
     psCipher16_t cs[8]; for (int i = 0; i < c->nsu; i++) cs[i] = c->su[i];
-    mx_actor = 0; MX_ENTER(); *rcc = matrixSslNewClientSession(&k->c.ssl, mx_keys.cli, sid, c->nsu ? cs : NULL, c->nsu, mx_cert_cb_accept, NULL, NULL, NULL, &co); MX_LEAVE();
+    mx_actor = 0; MX_ENTER(); *rcc = matrixSslNewClientSession(&k->c.ssl, ck, sid, c->nsu ? cs : NULL, c->nsu, mx_cert_cb_accept, NULL, NULL, NULL, &co); MX_LEAVE();
     k->c.wantTake = 1; if (*rcc > 0) *rcc = 0;
 }
 
 typedef struct { cfg_t c; tamper_t t; const char *cls; } case_t;
 static int tamper_applied;
-static int apply_tamper(const tamper_t *t, unsigned char **buf, int *len, int dtls)
+static int apply_tamper(const tamper_t *t, unsigned char **buf, int *len, int dtls, int off)   /* off = offset of the record carrying the hello */
 {
     hello_t h; static unsigned char out[20000]; static unsigned char scratch[600];
-    mx_rec r; if (!mx_rec_at(*buf, *len, 0, dtls, &r)) return 0;
-    int first = r.hdr + r.len;
-    if (parse_hello(*buf, first, dtls, &h) != 0 || h.isServer != (t->kind == 2)) return 0;
+    mx_rec r; if (!mx_rec_at(*buf, *len, off, dtls, &r)) return 0;
+    int first = r.hdr + r.len; const unsigned char *rec = *buf + off;
+    if (parse_hello(rec, first, dtls, &h) != 0 || h.isServer != (t->kind == 2)) return 0;
     if (dtls && !h.isServer && h.cookielen == 0 && t->field != F_LEGACY) return 0;    /* tamper with the cookie-bearing ClientHello (the first is not in the transcript) */
     switch (t->field) {
     case F_LEGACY: h.legacy[1] ^= (unsigned char) t->arg; break;
@@ -136,29 +265,79 @@ static int apply_tamper(const tamper_t *t, unsigned char **buf, int *len, int dt
         int found = 0; for (int i = 0; i < h.next; i++) if (h.ext[i].type == 43 && !h.isServer) { int l = h.ext[i].data[0], o = 1; scratch[0] = 0; for (int j = 0; j + 1 < l; j += 2) { if (h.ext[i].data[1 + j] == 3 && h.ext[i].data[2 + j] == 4) { found = 1; continue; } scratch[o++] = h.ext[i].data[1 + j]; scratch[o++] = h.ext[i].data[2 + j]; } scratch[0] = o - 1; if (o == 1) return 0; h.ext[i].data = scratch; h.ext[i].len = o; }
         if (!found) return 0; } break;
     }
-    int n = build_hello(&h, out, *buf);
-    int rest = *len - first; unsigned char *nb = malloc(n + rest + 1); memcpy(nb, out, n); memcpy(nb + n, *buf + first, rest);
-    if (n == first && !memcmp(nb, *buf, n)) { free(nb); return 0; }
-    free(*buf); *buf = nb; *len = n + rest; tamper_applied = 1;
+    int n = build_hello(&h, out, rec);
+    int rest = *len - off - first; unsigned char *nb = malloc(off + n + rest + 1); memcpy(nb, *buf, off); memcpy(nb + off, out, n); memcpy(nb + off + n, rec + first, rest);
+    if (n == first && !memcmp(nb + off, rec, n)) { free(nb); return 0; }
+    free(*buf); *buf = nb; *len = off + n + rest; tamper_applied = 1;
     return 1;
 }
 
 static int client_state_after_sh = -1, client_dead_after_sh = 0;
+static wire_t W;
+static const char *algs_str(const uint16_t *l, int n) { static char b[4][160]; static int r; char *o = b[r++ & 3]; int p = 0; o[0] = 0; for (int i = 0; i < n && p < 150; i++) p += snprintf(o + p, 160 - p, "%s%04x", i ? "," : "", l[i]); return o; }
+/* signature-algorithm cases.  c->sig == 1: the client restricts its list (sigC), the server (identity idS) signs ServerKeyExchange / CertificateVerify;
+   c->sig == 2: client authentication, the server restricts its list (sigS), the client (identity idC) signs CertificateVerify (and the server, same identity, its own messages). */
+static void check_alg(const char *what, int alg, const uint16_t *cfgl, int ncfg, const uint16_t *wirel, int nwire, const char *wirename, int v13, int kt, const char *idname)
+{
+    if (ncfg && !in_list(cfgl, ncfg, alg)) report("sigalg-not-offered", "%s signed with 0x%04x; the verifier enabled only {%s}", what, alg, algs_str(cfgl, ncfg));
+    else if (!in_list(wirel, nwire, alg)) report("sigalg-not-offered", "%s signed with 0x%04x; the %s on the wire offered {%s}", what, alg, wirename, algs_str(wirel, nwire));
+    if (!sig_usable(v13, kt, alg)) report("sigalg-key-type-mismatch", "%s signed with 0x%04x by a %s key under %s", what, alg, idname, v13 ? "TLS 1.3" : "(D)TLS 1.2");
+}
+static void sig_oracle(const cfg_t *c, mx_conn *k, int done)
+{
+    int v13 = (c->cmask & c->smask) == (1 << MX_TLS13); const ident_t *S = &ident[c->idS], *C = &ident[c->idC];
+    const uint16_t *vl = c->sig == 1 ? c->sigC : c->sigS; int nvl = c->sig == 1 ? c->nsigC : c->nsigS; const ident_t *signer = c->sig == 1 ? S : C;
+    int usable = 0; for (int i = 0; i < nvl; i++) if (sig_usable(v13, signer->kt, vl[i])) usable++;
+    vf_distinct("%s|%x|%d|%d|%s|%04x|%d", cur_class, c->cmask, c->idS, c->idC, algs_str(vl, nvl), c->force, c->forceRole);
+    vf_statf(1, "sig_%s_%s", cur_class, done ? "complete" : "failed");
+    if (!done) {
+        /* control: the verifier offers every algorithm of the universe (incl. the chain's) - an honest signer must get through */
+        /* (D)TLS 1.2 CertificateRequest carries a fixed list (SHA-1/256/384 x RSA/ECDSA, sslEncode.c writeCertificateRequest) whatever the session options say:
+           a client whose chain is signed with an algorithm missing there legitimately declines; completeness is owed only if the list on the wire admits the chain */
+        if (c->sig == 2 && !v13 && !(W.sawCreq && in_list(W.creq, W.nCreq, signer->chainAlg))) { vf_stat("sig_clientauth_chain_not_admitted_by_certificaterequest", 1); return; }
+        if (!c->force && nvl >= 9) report("no-handshake-despite-common-sigalg", "verifier offers {%s}, signer holds a %s key: handshake failed (client alert-in %d, server alert-in %d)", algs_str(vl, nvl), signer->name, k->c.alertDesc, k->s.alertDesc);
+        return;
+    }
+    if (W.v13 != v13) { vf_incon("signature case %s: version on the wire is not the configured one", cur_desc); return; }
+    if (!usable) report("completed-without-common-sigalg", "verifier offers {%s}, none usable with the signer's %s key under %s: handshake completed", algs_str(vl, nvl), signer->name, v13 ? "TLS 1.3" : "(D)TLS 1.2");
+    /* the server's own signature: ServerKeyExchange (TLS 1.2, ECDHE suites only are offered) or CertificateVerify (TLS 1.3) */
+    int salg = v13 ? W.cvS : W.ske;
+    if (c->force && (c->forceRole == MX_SERVER ? salg : W.cvC) != c->force) vf_stat("rogue_signer_not_effective", 1);
+    if (!salg) { vf_incon("signature case %s completed but no %s was seen on the wire", cur_desc, v13 ? "server CertificateVerify" : "ServerKeyExchange signature"); return; }
+    check_alg(v13 ? "server CertificateVerify" : "ServerKeyExchange", salg, c->sigC, c->nsigC, W.off, W.nOff, "ClientHello", v13, S->kt, S->name);
+    vf_statf(1, "sig_server_alg_%04x", salg);
+    if (c->sig == 2) {
+        if (!W.sawCreq) { vf_incon("client-auth case %s completed without a CertificateRequest on the wire", cur_desc); return; }
+        if (!W.cvC) { vf_stat("sig_clientauth_completed_without_certificateverify", 1); return; }   /* the client declined to authenticate: no signature algorithm in force for it */
+        check_alg("client CertificateVerify", W.cvC, c->sigS, c->nsigS, W.creq, W.nCreq, "CertificateRequest", v13, C->kt, C->name);
+        vf_statf(1, "sig_client_alg_%04x", W.cvC);
+    }
+    vf_stat("signature_negotiations_checked", 1);
+}
 static void run_case(void *a_)
 {
     case_t *cs = a_; cfg_t *c = &cs->c; mx_conn k; sslSessionId_t *sid; matrixSslNewSessionId(&sid, NULL); int rcs = 0, rcc = 0;
     cur_class = cs->cls; vf_stat("cases", 1);
+    force_alg = c->force; force_role = c->forceRole;
     open_pair(&k, c, sid, &rcs, &rcc);
     int common = c->cmask & c->smask; int expectV = vmask_max(common);
-    if (rcs < 0 || rcc < 0) { vf_stat("session_creation_refused", 1); if (rcs >= 0) mx_ep_free(&k.s); if (rcc >= 0) mx_ep_free(&k.c); return; }
-    /* pump flight by flight with the tamper hook on the first flight of each direction */
-    tamper_applied = 0; int done_t = 0; int shSeen = 0;
+    if (rcs < 0 || rcc < 0) { vf_stat("session_creation_refused", 1); if (c->sig || c->hrr) vf_incon("session creation refused for a %s configuration (%s)", cs->cls, cur_desc); if (rcs >= 0) mx_ep_free(&k.s); if (rcc >= 0) mx_ep_free(&k.c); return; }
+    /* pump flight by flight with the tamper hook on the chosen hello of each direction */
+    tamper_applied = 0; int done_t = 0; int shSeen = 0; int helloOrd[2] = { 0, 0 }; memset(&W, 0, sizeof W);
     for (int round = 0; round < 40; round++) {
         mx_ep *snd = (round & 1) ? &k.s : &k.c, *rcv = (round & 1) ? &k.c : &k.s;
         if (k.dtls && !snd->wantTake && snd->ssl->outlen == 0) { if (round > 6) break; continue; }
         unsigned char *b; int n = mx_take(snd, &b);
         if (n <= 0) { free(b); if (round > 3) break; continue; }
-        if (!done_t && cs->t.kind == 1 + (round & 1)) { if (apply_tamper(&cs->t, &b, &n, k.dtls)) done_t = 1; }
+        wire_flight(&W, snd, round & 1, b, n, k.dtls);
+        if (vf_case) { fprintf(stderr, "  flight %d %s:", round, snd->name); int o = 0; mx_rec r; while (mx_rec_at(b, n, o, k.dtls, &r)) { fprintf(stderr, " [%d/%d%s%d]", r.type, r.len, r.type == 22 ? " hs" : " ", r.type == 22 ? b[o + r.hdr] : 0); o += r.hdr + r.len; } fprintf(stderr, "\n"); }
+        if (!done_t && cs->t.kind == 1 + (round & 1)) {
+            if (!cs->t.which) { if (apply_tamper(&cs->t, &b, &n, k.dtls, 0)) done_t = 1; }
+            else {   /* exactly the which-th hello of this direction; compatibility ChangeCipherSpec records in front of it are stepped over */
+                int o = 0; mx_rec r; hello_t h; while (mx_rec_at(b, n, o, k.dtls, &r) && r.type == 20) o += r.hdr + r.len;
+                if (mx_rec_at(b, n, o, k.dtls, &r) && parse_hello(b + o, r.hdr + r.len, k.dtls, &h) == 0 && h.isServer == (round & 1) && ++helloOrd[round & 1] == cs->t.which) { apply_tamper(&cs->t, &b, &n, k.dtls, o); done_t = 1; }
+            }
+        }
         if (!rcv->dead) {
             if (k.dtls) { int off = 0; mx_rec r; while (off < n && mx_rec_at(b, n, off, 1, &r)) { if (!rcv->dead) mx_feed(rcv, b + off, r.hdr + r.len); off += r.hdr + r.len; } }
             else mx_feed(rcv, b, n);
@@ -166,22 +345,30 @@ static void run_case(void *a_)
         if ((round & 1) && !shSeen && b[0] == 22) { shSeen = 1; client_dead_after_sh = k.c.dead || (k.c.ssl->flags & SSL_FLAGS_ERROR) != 0; client_state_after_sh = k.c.ssl->hsState; }
         free(b);
     }
+    force_alg = 0;
+    if (vf_case) fprintf(stderr, "  wire: v13=%d CH=%d HRR=%d SH=%d ske=%04x cvS=%04x cvC=%04x offered={%s} certreq=%d{%s} client.peerSigAlg=%04x\n", W.v13, W.nCH, W.nHRR, W.nSH, W.ske, W.cvS, W.cvC, algs_str(W.off, W.nOff), W.sawCreq, algs_str(W.creq, W.nCreq), k.c.ssl->peerSigAlg);
     int cdone = matrixSslHandshakeIsComplete(k.c.ssl) && !k.c.dead, sdone = matrixSslHandshakeIsComplete(k.s.ssl) && !k.s.dead;
     vf_statf(1, "outcome_%s", cdone && sdone ? "both-complete" : (cdone || sdone) ? "one-side-complete" : "failed");
+    if (W.nHRR) vf_stat("handshakes_with_helloretryrequest", 1);
     if (cs->t.kind) {
         if (!tamper_applied) { vf_stat("tamper_not_applicable", 1); goto out; }
-        vf_distinct("%s|%x|%x|%d|%d|%d|%d", cs->cls, c->cmask, c->smask, cs->t.kind, cs->t.field, cs->t.arg, cs->t.arg2);
+        /* a rewrite aimed at ClientHello2 / ServerHello of a HelloRetryRequest handshake presupposes that the HelloRetryRequest happened */
+        if (cs->t.which && c->hrr && !(cs->t.kind == 1 && cs->t.which == 1) && W.nHRR < 1) { vf_incon("configuration %s did not go through HelloRetryRequest", cur_desc); goto out; }
+        vf_statf(1, "rewrites_applied_%s", cs->cls);
+        vf_distinct("%s|%x|%x|%d|%d|%d|%d|%d|%d|%d|%04x", cs->cls, c->cmask, c->smask, cs->t.kind, cs->t.field, cs->t.arg, cs->t.arg2, cs->t.which, c->hrr, c->ecdsa, c->nsu ? c->su[0] : 0);
         if (cdone && sdone) {
             /* both complete although a hello byte changed in flight */
-            report("tampered-hello-accepted", "%s %s (arg %d/%d): both endpoints completed the handshake", cs->t.kind == 1 ? "ClientHello" : "ServerHello", fname[cs->t.field], cs->t.arg, cs->t.arg2);
+            static const char *hn[2][3] = { { "ClientHello", "ClientHello1", "ClientHello2" }, { "ServerHello", "HelloRetryRequest", "ServerHello (after HelloRetryRequest)" } };
+            report("tampered-hello-accepted", "%s %s (arg %d/%d): both endpoints completed the handshake (ClientHellos on the wire %d, HelloRetryRequests %d, group %u)", hn[cs->t.kind - 1][cs->t.which > 2 ? 0 : cs->t.which], fname[cs->t.field], cs->t.arg, cs->t.arg2, W.nCH, W.nHRR, k.s.ssl->tls13NegotiatedGroup);
         } else if (cdone || sdone) {
             /* one side believing the handshake done is possible only transiently (last flight lost); it must not deliver data */
             vf_stat("tampered_one_side_complete", 1);
         }
-        if (cs->t.field == F_SV_DROP13 && (c->cmask & c->smask & (1 << MX_TLS13)) && shSeen && !client_dead_after_sh)
+        if (cs->t.field == F_SV_DROP13 && cs->t.which < 2 && (c->cmask & c->smask & (1 << MX_TLS13)) && shSeen && !client_dead_after_sh)
             report("downgrade-sentinel-ignored", "ClientHello stripped of TLS 1.3: server answered with an older version and the client did not abort at ServerHello (hsState %d)", client_state_after_sh);
         goto out;
     }
+    if (c->sig) { sig_oracle(c, &k, cdone && sdone); goto out; }
     vf_distinct("%s|%d%d|%x|%x|%d|%04x|%d|%d|%d|%d|%d|%d", cs->cls, c->ascC, c->ascS, c->cmask, c->smask, c->nsu, c->nsu ? c->su[0] : 0, c->nsdis, c->ngroupsC, c->ngroupsS, c->nsigC, c->emsC * 3 + c->emsS, c->scsv);
     /* ---- reference negotiation ---- */
     int mustFail = expectV < 0;
@@ -196,6 +383,8 @@ static void run_case(void *a_)
     if (!mustFail && expectV == MX_TLS13 && c->ngroupsC && c->ngroupsS) { int any = 0; for (int i = 0; i < c->ngroupsC; i++) for (int j = 0; j < c->ngroupsS; j++) if (c->groupsC[i] == c->groupsS[j]) any = 1; if (!any) mustFail = 3; }
     if (mustFail == 1 || mustFail < 0 || expectV < 0) { if (cdone && sdone) report(c->scsv ? "fallback-scsv-ignored" : "completed-without-common-version", "client versions 0x%x server versions 0x%x scsv=%d: handshake completed (negotiated %s)", c->cmask, c->smask, c->scsv, mx_vername[wire_to_ver(matrixSslGetNegotiatedVersion(k.c.ssl)) < 0 ? 0 : wire_to_ver(matrixSslGetNegotiatedVersion(k.c.ssl))]); goto out; }
     if (mustFail >= 2) { if (cdone && sdone) report(mustFail == 2 ? "completed-without-common-suite" : "completed-without-common-group", "handshake completed although the configurations share no usable %s", mustFail == 2 ? "cipher suite" : "key-exchange group"); goto out; }
+    if (c->hrr && W.nHRR != 1) { vf_incon("configuration %s did not go through HelloRetryRequest (ClientHellos %d, HelloRetryRequests %d)", cur_desc, W.nCH, W.nHRR); goto out; }
+    if (c->hrr && !(cdone && sdone)) { report("no-handshake-despite-common-group", "client groups and server groups share a group the client sent no key share for; after HelloRetryRequest the handshake failed (client alert-in %d, server alert-in %d)", k.c.alertDesc, k.s.alertDesc); goto out; }
     if (!(cdone && sdone)) {
         /* completeness is asserted only for the plain configurations (default lists): the reference model does not predict every legal refusal of exotic list combinations */
         if (!c->nsu && !c->nsdis && !c->ngroupsC && !c->ngroupsS && !c->nsigC && !c->nsigS && c->emsC >= 0 && c->emsS >= 0) report("no-handshake-despite-common-version", "client versions 0x%x server versions 0x%x share %s but the handshake failed (client alert-in %d, server alert-in %d)", c->cmask, c->smask, mx_vername[expectV], k.c.alertDesc, k.s.alertDesc);
@@ -215,7 +404,9 @@ static void run_case(void *a_)
         if (g != gc) report("endpoints-disagree", "key-exchange group client %u server %u", gc, g);
         if (c->ngroupsC) { int in = 0; for (int i = 0; i < c->ngroupsC; i++) if (c->groupsC[i] == g) in = 1; if (!in && g) report("group-not-offered", "group %u not in the client's list", g); }
         if (c->ngroupsS) { int in = 0; for (int i = 0; i < c->ngroupsS; i++) if (c->groupsS[i] == g) in = 1; if (!in && g) report("group-not-enabled-on-server", "group %u not in the server's list", g); }
+        if (c->hrr && (W.nCH != 2 || W.nSH != 1)) report("hello-count-after-helloretryrequest", "%d ClientHellos, %d HelloRetryRequests, %d ServerHellos on the wire", W.nCH, W.nHRR, W.nSH);
         uint16_t sa = k.c.ssl->sec.tls13PeerCvSigAlg;
+        if (W.cvS && sa && W.cvS != sa) report("endpoints-disagree", "CertificateVerify on the wire carries 0x%04x, the client recorded 0x%04x", W.cvS, sa);
         if (c->nsigC && sa) { int in = 0; for (int i = 0; i < c->nsigC; i++) if (c->sigC[i] == sa) in = 1; if (!in) report("sigalg-not-offered", "server signed CertificateVerify with 0x%04x which the client did not offer", sa); }
     }
     /* same keys: data must round-trip */
@@ -233,7 +424,7 @@ static void add_case(const cfg_t *c, const tamper_t *t, const char *cls) { if (n
 
 int main(int argc, char **argv)
 {
-    vf_init(argc, argv); mx_global_init(); mx_keys_load();
+    vf_init(argc, argv); mx_global_init(); mx_keys_load(); ident_load();
     vf_rng g; vf_rng_init(&g, vf_seed, 7);
     cfg_t base; memset(&base, 0, sizeof base);
     /* 1. version subsets, exhaustive: 7x7 TLS and 3x3 DTLS, default suites */
@@ -263,15 +454,66 @@ int main(int argc, char **argv)
             tamper_t t = { kind, f, r, (int) vf_below(&g, 600) };
             if (f == F_LEGACY) t.arg = r ? 2 : 1; if (f == F_SUITE_INSERT) t.arg = r ? 0x0005 : 0x002f; if (f == F_SUITE_SET) t.arg = r ? 0x002f : 0x1301; if (f == F_EXT_EDIT) t.arg = r;
             add_case(&c, &t, kind == 1 ? "clienthello-rewrite" : "serverhello-rewrite"); } }
+    /* 6. HelloRetryRequest handshakes: controls, then the whole rewrite grid on each of the four hellos */
+    static const struct { int cm, sm, ngC, ngS; uint16_t gC[4], gS[4]; int ecdsa; uint16_t suite; } hrr[] = {
+        { 4, 4, 3, 2, { 29, 24, 23 }, { 24, 23 }, 0, 0 },            /* x25519 share only; server enables secp384r1, secp256r1 */
+        { 7, 7, 3, 2, { 29, 24, 23 }, { 24, 23 }, 0, 0 },            /* same with TLS 1.1-1.3 enabled on both sides (supported_versions rewrites bite) */
+        { 4, 4, 2, 1, { 23, 24 }, { 24 }, 1, 0 },                     /* ECDSA server identity */
+        { 4, 4, 3, 2, { 23, 25, 29 }, { 25, 29 }, 0, 0x1302 },        /* SHA-384 transcript */
+        { 6, 6, 2, 2, { 24, 29 }, { 29, 23 }, 1, 0x1303 },
+    };
+    static const char *hcls[2][2] = { { "hrr-clienthello1-rewrite", "hrr-clienthello2-rewrite" }, { "hrr-helloretryrequest-rewrite", "hrr-serverhello-rewrite" } };
+    for (int hi = 0; hi < (int) (sizeof hrr / sizeof hrr[0]); hi++) {
+        cfg_t c = base; c.cmask = hrr[hi].cm; c.smask = hrr[hi].sm; c.ngroupsC = hrr[hi].ngC; c.ngroupsS = hrr[hi].ngS; memcpy(c.groupsC, hrr[hi].gC, sizeof c.groupsC); memcpy(c.groupsS, hrr[hi].gS, sizeof c.groupsS);
+        c.shares = 1; c.ecdsa = hrr[hi].ecdsa; c.hrr = 1; if (hrr[hi].suite) { c.nsu = 1; c.su[0] = hrr[hi].suite; }
+        add_case(&c, NULL, "tls13-hrr");
+        for (int which = 1; which <= 2; which++) for (int kind = 1; kind <= 2; kind++) for (int f = 0; f < F_N; f++) {
+            int reps = (f == F_EXT_REMOVE || f == F_EXT_DUP) ? 12 : f == F_EXT_EDIT ? (vf_thorough ? 200 : 30) : (f == F_RANDOM_TAIL) ? 4 : (f == F_SUITE_DROP) ? 4 : 2;
+            for (int r = 0; r < reps; r++) { tamper_t t = { kind, f, r, (int) vf_below(&g, 600), which };
+                if (f == F_LEGACY) t.arg = r ? 2 : 1; if (f == F_SUITE_INSERT) t.arg = r ? 0x0005 : 0x002f; if (f == F_SUITE_SET) t.arg = r ? 0x002f : (c.nsu && c.su[0] == 0x1301 ? 0x1302 : 0x1301); if (f == F_EXT_EDIT) t.arg = r;
+                add_case(&c, &t, hcls[kind - 1][which - 1]); } }
+    }
+    /* 7. signature algorithms against restricted lists: every identity x {TLS 1.2, DTLS 1.2, TLS 1.3} x {server signs, client signs (client auth)} */
+    static const uint16_t U[9] = { 0x0401, 0x0501, 0x0601, 0x0403, 0x0503, 0x0603, 0x0804, 0x0805, 0x0806 };   /* lists are drawn from the first 8; the control offers all 9 */
+    static const int sver[3] = { MX_TLS12, MX_DTLS12, MX_TLS13 }; static const char *scls[2][3] = { { "tls12-sigalgs", "dtls12-sigalgs", "tls13-sigalgs-bykey" }, { "tls12-sigalgs-clientauth", "dtls12-sigalgs-clientauth", "tls13-sigalgs-clientauth" } };
+    for (int id = 1; id < NIDENT; id++) for (int vi = 0; vi < 3; vi++) for (int role = 1; role <= 2; role++) {
+        cfg_t c = base; int v13 = sver[vi] == MX_TLS13; c.sig = role; c.idS = id; c.idC = role == 2 ? id : 0; c.ecdsa = ident[id].kt != KT_RSA;
+        c.cmask = c.smask = sver[vi] == MX_DTLS12 ? (3 << MX_DTLS10) : (1 << sver[vi]);
+        if (!v13) { c.nsu = 2; c.su[0] = c.ecdsa ? 0xc02b : 0xc02f; c.su[1] = c.ecdsa ? 0xc009 : 0xc013; }   /* ECDHE only: ServerKeyExchange is signed */
+        const char *cls = scls[role - 1][vi]; uint16_t lists[400][10]; int nl[400], n = 0;
+        for (int i = 0; i < 9; i++) lists[n][i] = U[i]; nl[n++] = 9;                                                            /* control */
+        if (vf_thorough) { for (int m = 1; m < 256; m++) { nl[n] = 0; for (int i = 0; i < 8; i++) if (m & (1 << i)) lists[n][nl[n]++] = U[i]; n++; } }
+        else {
+            for (int i = 0; i < 8; i++) { lists[n][0] = U[i]; nl[n++] = 1; }                                                     /* singletons */
+            for (int i = 0; i < 8; i++) { nl[n] = 0; for (int j = 0; j < 8; j++) if (j != i) lists[n][nl[n]++] = U[j]; n++; }     /* all but one */
+            for (int i = 0; i < 8; i++) if (U[i] != ident[id].chainAlg) { lists[n][0] = ident[id].chainAlg; lists[n][1] = U[i]; nl[n++] = 2; }   /* the chain's algorithm (needed for the certificate to be presentable) + one */
+            nl[n] = 0; for (int i = 0; i < 8; i++) if (!sig_usable(v13, ident[id].kt, U[i])) lists[n][nl[n]++] = U[i]; if (nl[n]) n++;   /* everything the key cannot sign */
+            nl[n] = 0; lists[n][nl[n]++] = ident[id].chainAlg; for (int i = 0; i < 8; i++) if (!sig_usable(v13, ident[id].kt, U[i]) && U[i] != ident[id].chainAlg) lists[n][nl[n]++] = U[i]; n++;
+        }
+        for (int r = 0; r < (vf_thorough ? 40 : 5); r++) {   /* seeded subsets in seeded order */
+            int m = 1 + vf_below(&g, 255); nl[n] = 0; for (int i = 0; i < 8; i++) if (m & (1 << i)) lists[n][nl[n]++] = U[i];
+            for (int i = nl[n] - 1; i > 0; i--) { int j = vf_below(&g, i + 1); uint16_t x = lists[n][i]; lists[n][i] = lists[n][j]; lists[n][j] = x; } n++; }
+        if (role == 2 && sver[vi] == MX_DTLS12 && !vf_thorough) n = 9;   /* DTLS client-auth variant: control + singletons in the quick tier */
+        for (int i = 0; i < n; i++) { cfg_t d = c; if (role == 1) { d.nsigC = nl[i]; memcpy(d.sigC, lists[i], nl[i] * 2); } else { d.nsigS = nl[i]; memcpy(d.sigS, lists[i], nl[i] * 2); } add_case(&d, NULL, cls); }
+        /* rogue signer: signs with an algorithm of its key type that the verifier left out (the rest of the universe, chain algorithm included, stays on offer) */
+        for (int i = 0; i < 9; i++) { uint16_t f = U[i]; if (!sig_usable(v13, ident[id].kt, f) || f == ident[id].chainAlg || (!v13 && f >= 0x0800)) continue;
+            cfg_t d = c; d.force = f; d.forceRole = role == 1 ? MX_SERVER : MX_CLIENT; uint16_t *l = role == 1 ? d.sigC : d.sigS; int k = 0; for (int j = 0; j < 9; j++) if (U[j] != f) l[k++] = U[j]; if (role == 1) d.nsigC = k; else d.nsigS = k;
+            add_case(&d, NULL, role == 1 ? "rogue-signer-server" : "rogue-signer-client"); }
+        if (!v13) { uint16_t f = c.ecdsa ? 0x0203 : 0x0201;   /* SHA-1, never in the universe */
+            cfg_t d = c; d.force = f; d.forceRole = role == 1 ? MX_SERVER : MX_CLIENT; if (role == 1) { d.nsigC = 9; memcpy(d.sigC, U, 18); } else { d.nsigS = 9; memcpy(d.sigS, U, 18); }
+            add_case(&d, NULL, role == 1 ? "rogue-signer-server" : "rogue-signer-client"); }
+    }
     for (long i = 0; i < ncases; i++) {
         if (!vf_mine(i)) continue;
         case_t *cs = &cases[i];
-        snprintf(cur_desc, sizeof cur_desc, "case=%ld cls=%s c=0x%x s=0x%x nsu=%d su0=%04x dis=%d t=%d/%s/%d/%d scsv=%d", i, cs->cls, cs->c.cmask, cs->c.smask, cs->c.nsu, cs->c.nsu ? cs->c.su[0] : 0, cs->c.nsdis, cs->t.kind, fname[cs->t.field], cs->t.arg, cs->t.arg2, cs->c.scsv);
+        snprintf(cur_desc, sizeof cur_desc, "case=%ld cls=%s c=0x%x s=0x%x nsu=%d su0=%04x dis=%d t=%d/%s/%d/%d/%d scsv=%d", i, cs->cls, cs->c.cmask, cs->c.smask, cs->c.nsu, cs->c.nsu ? cs->c.su[0] : 0, cs->c.nsdis, cs->t.kind, fname[cs->t.field], cs->t.arg, cs->t.arg2, cs->t.which, cs->c.scsv);
+        if (cs->c.sig) snprintf(cur_desc + strlen(cur_desc), sizeof cur_desc - strlen(cur_desc), " idS=%s idC=%s sig%c={%s} force=%04x", ident[cs->c.idS].name, ident[cs->c.idC].name, cs->c.sig == 1 ? 'C' : 'S', cs->c.sig == 1 ? algs_str(cs->c.sigC, cs->c.nsigC) : algs_str(cs->c.sigS, cs->c.nsigS), cs->c.force);
+        if (cs->c.hrr) snprintf(cur_desc + strlen(cur_desc), sizeof cur_desc - strlen(cur_desc), " hrr groupsC=%u.. groupsS=%u.. ecdsa=%d", cs->c.groupsC[0], cs->c.groupsS[0], cs->c.ecdsa);
         if (vf_case) { long want = -1; sscanf(vf_case, "case=%ld", &want); if (want != i) continue; }
         if (i % 211 == 0) vf_sample("%s", cur_desc);
         mx_entropy_seed(vf_seed * 7919 + i);
         vf_fork_case(run_case, cs, "c07", cur_desc, 120);
     }
-    mx_keys_free(); matrixSslClose(); vf_flush();
+    ident_free(); mx_keys_free(); matrixSslClose(); vf_flush();
     return 0;
 }
